@@ -191,7 +191,18 @@ def stepOracle (d : DState) (s : PState) (cmd : String) (args : List String) : D
     match compile s.cfg.proj s.registry with
     | .error (.unknownClass id) => ({ d with snaps := d.snaps.filter (fun e => e.1 != name) }, [s!"update raised unknown_class {id}"])
     | _ => ({ d with snaps := (d.snaps.filter (fun e => e.1 != name)) ++ [(name, s.registry)] }, ["update ok"])
-  else if cmd == "dump" then (d, [])
+  else if cmd == "dump" then
+    -- the specification's `next` of every definition, from the registry of the latest update
+    match d.snaps.find? (fun e => e.1 == name) with
+    | none => (d, [])
+    | some (_, reg) =>
+      (d, reg.methods.map (fun m =>
+        let cells := m.defs.map (fun df =>
+          match Spec.nextB s.cfg.proj reg m.defs df with
+          | .ran x => s!"d{x}"
+          | .notImplemented => "N"
+          | .ambiguous => "A")
+        s!"specnext {m.key} [" ++ ",".intercalate cells ++ "]"))
   else
     match nats, d.snaps.find? (fun e => e.1 == name) with
     | key :: ids, some (_, reg) =>
